@@ -144,15 +144,17 @@ class FitRun(Scenario):
     isinstance_shim = ["mxlpy.simulation"]
     max_paths = 2000
 
-    def __init__(self, kind, p0_keys, with_y0, scaled, fail=False, loss="rmse"):
+    def __init__(self, kind, p0_keys, with_y0, scaled, fail=False, loss="rmse", model="decay"):
         self.kind, self.p0_keys, self.with_y0, self.scaled, self.fail, self.loss = kind, tuple(p0_keys), with_y0, scaled, fail, loss
-        self.key = f"C20/fit/{kind}/p0-{'+'.join(p0_keys)}/{'y0' if with_y0 else 'no-y0'}/{'scaled' if scaled else 'unscaled'}/{loss}{'/fail' if fail else ''}"
+        self.model = model  # "decay" (one variable) | "moiety" (closed a <-> b: the steady state depends on the initial amounts)
+        self.key = (f"C20/fit/{kind}/p0-{'+'.join(p0_keys)}/{'y0' if with_y0 else 'no-y0'}/{'scaled' if scaled else 'unscaled'}/{loss}"
+                    f"{'/fail' if fail else ''}{'' if model == 'decay' else '/' + model}")
 
     def run(self, ctx):
         import mxlpy.integrators.int_scipy as isc
         import mxlpy.minimizers._scipy as msc
 
-        fm = FlowModel("decay")
+        fm = FlowModel(self.model)
         saved = (isc.spi, msc.minimize)
         isc.spi = StubSPI(fm, ctx.symbolic)
         evals = []
@@ -202,13 +204,14 @@ class FitRun(Scenario):
         ic_before = dict(m.get_initial_conditions())
         raw_before = ({k: v.value for k, v in m.get_raw_parameters().items()}, {k: v.initial_value for k, v in m.get_raw_variables().items()})
         p0 = {k: ctx.real(f"start_{k}") for k in self.p0_keys}
-        y0 = {"x": ctx.real("y0_x")} if self.with_y0 else None
+        vnames = m.get_variable_names()
+        y0 = {vnames[0]: ctx.real("y0_" + vnames[0])} if self.with_y0 else None
         loss_fn = getattr(losses, self.loss)
         tps = [0.5, 1.0]
         if self.kind == "tc":
             data = (SymFrame if sym and self.scaled else pd.DataFrame)({"x": [ctx.real("obs0"), ctx.real("obs1")]}, index=tps, dtype=dt)
         elif self.kind == "ss":
-            data = pd.Series({"x": ctx.real("obs0")}, dtype=dt)  # fluxes (k * x) would make the comparison of two losses non-linear
+            data = pd.Series({vnames[0]: ctx.real("obs0")}, dtype=dt)  # fluxes (k * x) would make the comparison of two losses non-linear
         else:
             data = pd.DataFrame({"x": [ctx.real("obs0"), ctx.real("obs1")]}, index=tps, dtype=dt)
             protocol = make_protocol([(0.5, {"k": ctx.real("st0")}), (0.5, {"k": ctx.real("st1")})])
@@ -241,6 +244,11 @@ class FitRun(Scenario):
         fitres = res.value
 
         def oracle_loss(pars):
+            if self.model == "moiety":
+                p = {k_: pars.get(k_, pv_before[k_]) for k_ in sorted(pv_before)}
+                start = [pars[v_] if v_ in pars else (y0[v_] if y0 and v_ in y0 else ic_before[v_]) for v_ in vnames]
+                ys = fm.flow(p, start, 0.0, 100.0, sym)
+                return loss_fn(data, pd.Series({vnames[0]: ys[0]}, dtype=dt))
             p = {"k": pars.get("k", pv_before["k"])}
             x0 = pars["x"] if "x" in pars else (y0["x"] if y0 else ic_before["x"])
             if self.kind == "tc":
@@ -291,6 +299,11 @@ def scenarios(tier, seed):
                 scs.append(FitRun(kind, keys, with_y0, False))
         scs.append(FitRun(kind, key_sets[0], False, False, fail=True))
         scs.append(FitRun(kind, key_sets[-1], True, False, loss="mean_squared"))
+    # steady-state fits of a model whose steady state depends on the initial amounts: every residual evaluation must start from
+    # the candidate's own initial amounts, whatever was evaluated before
+    scs.append(FitRun("ss", ("a",), False, False, model="moiety"))
+    scs.append(FitRun("ss", ("a", "kf"), False, False, loss="mean_squared", model="moiety"))
+    scs.append(FitRun("ss", ("kr",), True, False, model="moiety"))
     # the default: standard-scaled residuals (time course; data statistics folded symbolically)
     scs.append(FitRun("tc", ("k",), False, True, loss="mean_squared"))
     scs.append(FitRun("tc", ("x", "k"), False, True, loss="mean_squared"))
